@@ -52,11 +52,14 @@ def run(prog, rep, tier):
                     if ct.cmethod == 'digest' and T['keygen']['hash'] in ct.cargs.replace('VarCore', ''):
                         okd = True
                         ao = origins(c, [ct.args[0].place[0]])
+                        # the hashed bytes are the seed itself: must-derive through value-preserving accessors only (as_bytes, deref, as_str ..);
+                        # a trim / case change / re-encoding in between is not the documented algorithm
                         if c.kind == 'Closure':
-                            oks = any(c.blocks[x].term.cmethod == 'as_bytes' for x in ao.calls) and 2 in ao.params
+                            is_seed = lambda k, ob, bb: k == 'param' and ob == 2
                         else:
-                            oks = any(c.blocks[x].term.cmethod == 'as_bytes' for x in ao.calls) and any(
-                                c.blocks[x].term.cmethod == 'get_one' and any(const_bytes_of(c, a) == b'seed' for a in c.blocks[x].term.args) for x in ao.calls)
+                            is_seed = lambda k, ob, bb: k == 'call' and ob.cmethod == 'get_one' and any(const_bytes_of(c, a) == b'seed' for a in ob.args)
+                        oks = any(c.blocks[x].term.cmethod == 'as_bytes' for x in ao.calls) and ct.args[0].place is not None and \
+                            must_derive(c, ct.args[0].place[0], is_seed, extra_transparent=('as_bytes',))
                     if ct.cmethod == 'index' and 'Range' in ct.cargs:
                         e = expr_of(c, ct.args[1])
                         if e[0] == 'agg':
@@ -120,11 +123,14 @@ def run(prog, rep, tier):
         oks = se[0] == 'agg' and se[3].j.get('variant') == 'Some' and const_bytes_of(ad, se[3].ops[0]) == T['derive']['salt'].encode()
         io = origins(ad, [n.args[1].place[0]])
         oki = any(ad.blocks[x].term.cmethod == 'to_bytes' and 'StaticSecret' in ad.blocks[x].term.cargs for x in io.calls) and 2 in io.params and 1 not in io.params
+        oki = oki and n.args[1].place is not None and must_derive(ad, n.args[1].place[0], lambda k, ob, bb: k == 'param' and ob == 2, extra_transparent=('to_bytes', 'as_bytes'))
         okx = okout = False
         if len(xs) == 1:
             x = xs[0].term
             xo = origins(ad, [x.args[1].place[0]])
             okx = any(ad.blocks[y].term.cmethod == 'as_bytes' for y in xo.calls) and 1 in xo.params and 2 not in xo.params
+            # info is the path itself (value-preserving accessors only: no trim / normalisation / re-encoding in between)
+            okx = okx and x.args[1].place is not None and must_derive(ad, x.args[1].place[0], lambda k, ob, bb: k == 'param' and ob == 1, extra_transparent=('as_bytes',))
             outs = owners_of(ad, x.args[2])
             ro = origins(ad, [0], through_calls=False)
             okout = bool(outs) and all(ad.lty(l) == '[u8; %d]' % T['derive']['out_len'] for l in outs) and any(l in ro.locals for l in outs)
@@ -158,6 +164,9 @@ def run(prog, rep, tier):
             oksec = pin.idx in so.calls and pout.idx in so.calls
             pathop = origins(kd, [der[0].term.args[0].place[0]])
             okpath = any(kd.blocks[x].term.cmethod == 'next' for x in pathop.calls) and any(kd.blocks[x].term.cmethod == 'get_many' for x in pathop.calls)
+            # the path handed to apply_derive is the iterator item as is
+            a0 = der[0].term.args[0]
+            okpath = okpath and a0.place is not None and must_derive(kd, a0.place[0], lambda k, ob, bb: k == 'call' and ob.cmethod == 'next' and ob.ctrait == 'std::iter::Iterator')
             ok = inl and okt and okseed and okgen and okre and oksec and okpath
             msg = 'per path: ChaCha20Rng::from_seed(apply_derive(path, secret)) -> generate_keypair -> secret = parse(private_der)' if ok else \
                 'derivation chain differs (in-loop=%s chacha20=%s seed=%s gen=%s reparse=%s secret-chain=%s paths=%s)' % (inl, okt, okseed, okgen, okre, oksec, okpath)
